@@ -208,7 +208,14 @@ def check_aggregation_mode(ctx, fi):
             return decide(ast.Compare(left=ast.Name(id=agg, ctx=ast.Load()), ops=t.ops, comparators=t.comparators), mode)
         if isinstance(t, ast.UnaryOp) and isinstance(t.op, ast.Not):
             r = decide(t.operand, mode)
-            return None if r is None else not r
+            return None if r is None else ('free' if r == 'free' else not r)
+        if isinstance(t, ast.BoolOp):
+            rs = [decide(v, mode) for v in t.values]
+            if any(r is None for r in rs):
+                return None
+            if isinstance(t.op, ast.And):
+                return False if any(r is False for r in rs) else ('free' if any(r == 'free' for r in rs) else True)
+            return True if any(r is True for r in rs) else ('free' if any(r == 'free' for r in rs) else False)
         if isinstance(t, ast.Compare) and len(t.ops) == 1:
             l, r = t.left, t.comparators[0]
             if isinstance(r, ast.Name) and r.id == agg and isinstance(l, ast.Constant):
